@@ -803,7 +803,7 @@ def run(repo, chk):
             return None
         return taken, wn.attrs["sim_time"]
     PROBES = [(0, 3600, 36000), (32400, 3600, 36000), (36000, 3600, 36000), (1800, 3600, 36000), (5000.0, 3600, 36000), (35000, 3600, 36000),
-              (0, 3600, 0), (7200, 1800, 9000), (7200, 1800, 8999), (0, 900.0, 86400)]
+              (0, 3600, 0), (7200, 1800, 9000), (7200, 1800, 8999), (0, 900.0, 86400), (39600, 3600, 36000), (9000, 1800, 8999)]
     time_exits = []
     for b_, chain in exit_paths():
         try:
@@ -814,11 +814,20 @@ def run(repo, chk):
             time_exits.append((b_, chain, res))
     chk.extra["time_exits"] = [norm(ch[-1][0].test) for b_, ch, r in time_exits]
     bad_exit = [(PROBES[i], r) for b_, ch, res in time_exits for i, r in enumerate(res) if r[0] != (r[1] > PROBES[i][2])]
-    chk.expect(len(time_exits) == 1 and not bad_exit, "R-C10-3", "the loop ends normally only when sim_time > duration",
+    # exits reached after the time advance of the same iteration end the run; an exit tested before anything else in the iteration
+    # (loop head) serves a continued run that has no step left.  Every one of them must be taken iff the clock it sees is past the duration.
+    after_adv = [e for e in time_exits if adv and any(g.dominates(a_, e[0], idom) for a_ in adv)]
+    chk.expect(len(after_adv) == 1 and not bad_exit, "R-C10-3", "the loop ends normally only when sim_time > duration",
                loc(rs, time_exits[0][1][-1][0]) if time_exits else loc(rs),
                "a run must stop after the last step at or before the duration and not earlier: a part that stops early (or late) makes the continued run "
-               "start at a different time than the uninterrupted one passes through", expected="exactly one clock-dependent exit, taken iff sim_time > duration",
+               "start at a different time than the uninterrupted one passes through", expected="one clock-dependent exit after the time advance, and every clock-dependent exit taken iff sim_time > duration",
                found=[norm(ch[-1][0].test) for b_, ch, r in time_exits] + ["(sim_time,h,duration)=%r -> exit %r at sim_time %r" % (pr, r[0], r[1]) for pr, r in bad_exit[:3]])
+    head = [e for e in time_exits if e not in after_adv]
+    past = [i for i, (t_, h_, d_) in enumerate(PROBES) if t_ > d_]
+    chk.expect(any(all(e[2][i][0] for i in past) for e in head), "R-C10-3", "a continued run whose clock is already past the duration leaves the loop before solving a step", loc(rs),
+               "the uninterrupted run stops at the bottom-of-loop test; a run continued from the paused model (sim_time = last step + h > duration) must not report one more step",
+               expected="a clock-dependent exit tested before the first solve of the iteration", found=[norm(ch[-1][0].test) for b_, ch, r in head] or "no exit before the time advance")
+    time_exits = after_adv
     if time_exits:
         nb, nchain, nres = time_exits[0]
         chk.expect(bool(adv) and any(g.dominates(a_, nb, idom) for a_ in adv), "R-C10-3",
@@ -868,6 +877,11 @@ WITNESSES = [
          new="        self._rule_iter = 1\n        if first_step:\n            self._rule_iter = int(self._wn._prev_sim_time // self._wn.options.time.rule_timestep) + 1\n", rule="R-C10-1"),
     dict(name="restart-graph-from-isolation-flags-through-temporary", file=CORE, old=_ENC_OLD,
          new="            entry = 0 if (link.status == wntr.network.LinkStatus.Closed or link._is_isolated) else 1\n            vals.append(entry)\n            vals.append(entry)\n", rule="R-C10-4"),
+    dict(name="continued-run-solves-a-step-past-the-duration", file=CORE,
+         old="            if not resolve and self._wn.sim_time > self._wn.options.time.duration:\n                # a continued run of a model that was paused at (or after) its duration has no step left to solve\n                break\n\n", new="", rule="R-C10-3"),
+    dict(name="quiet-loop-condition-instead-of-head-break", file=CORE,
+         old="            if not resolve and self._wn.sim_time > self._wn.options.time.duration:\n                # a continued run of a model that was paused at (or after) its duration has no step left to solve\n                break\n\n",
+         new="            if (not resolve) and not (self._wn.sim_time <= self._wn.options.time.duration):\n                break\n\n", silent=True),
     # ---- behaviour-preserving spellings that must stay quiet
     dict(name="quiet-first-step-bool-expression", file=CORE, old=_FS_OLD, new="        first_step = bool(self._wn.sim_time == 0)\n", silent=True),
     dict(name="quiet-first-step-hoisted-clock-and-negation", file=CORE, old=_FS_OLD, new="        now = self._wn.sim_time\n        continued = now != 0\n        first_step = not continued\n", silent=True),
@@ -902,6 +916,7 @@ WITNESSES = [
                ("            first_step = False\n            self._wn.sim_time +=", "            fresh_start = False\n            self._wn.sim_time +="),
                ("        resolve = False\n        # this is used", "        solve_again = False\n        # this is used"),
                ("            if not resolve:\n", "            if not solve_again:\n"),
+               ("            if not resolve and self._wn.sim_time > self._wn.options.time.duration:", "            if not solve_again and self._wn.sim_time > self._wn.options.time.duration:"),
                ("                resolve = True\n", "                solve_again = True\n"),
                ("            resolve = False\n            if not isinstance", "            solve_again = False\n            if not isinstance"),
                ("        trial = -1\n", "        n_solves = -1\n"),
